@@ -1,15 +1,47 @@
-#include "qsbr_a2.c"
+/* qsbr grace-period scenario: real src/urcu-qsbr.c under the controlled scheduler with simulated store buffers.
+   usage: scen_qsbr PROG SCHED ; reader ops: Q rcu_quiescent_state  F rcu_thread_offline  N rcu_thread_online  r/q litmus loads
+   (a thread is online after registration); updater op: S = pre_g := 1; synchronize_rcu(); post_g := 1.
+   Implicit sections run between consecutive quiescent points of an online thread. */
+#include "/repo/src/urcu-qsbr.c"
 #include "sched.h"
-static unsigned long X, Y; static char tn[8][8];
-static void treg(int t){ sprintf(tn[t],"rd%d",t); vs_region(&URCU_TLS(urcu_qsbr_reader),sizeof(struct urcu_qsbr_reader),tn[t]); }
-static void reader(int t){ treg(t); urcu_qsbr_register_thread();
-	for(int i=0;i<3;i++){ unsigned long r1=CMM_LOAD_SHARED(X), r2=CMM_LOAD_SHARED(Y);
-	  if(r2==1&&r1==0) printf("VIOLATION litmus reader %d\n",t);
-	  if(i==1){ urcu_qsbr_thread_offline(); urcu_qsbr_thread_online(); } else urcu_qsbr_quiescent_state(); }
-	urcu_qsbr_unregister_thread(); }
-static void updater(int t){ treg(t); urcu_qsbr_register_thread(); urcu_qsbr_synchronize_rcu(); CMM_STORE_SHARED(X,1); vs_call("sync",0); urcu_qsbr_synchronize_rcu(); vs_ret("sync",0); CMM_STORE_SHARED(Y,1); urcu_qsbr_unregister_thread(); }
-int main(int argc,char**argv){ setvbuf(stdout,0,_IOLBF,0);
+#include <string.h>
+#define MAXTH 6
+#define NG 16
+static unsigned long pre[NG], post[NG]; static int ng_total;
+static char *prog[MAXTH]; static int nprog; static int gbase[MAXTH];
+static char tlsname[MAXTH][16], wname[MAXTH][16]; static long updaters_left;
+static void body(int t){
+	int updater = strchr(prog[t],'S') != 0; int g = gbase[t]; int online = 1;
+	unsigned long vpost[NG], vpre[NG];
+	sprintf(tlsname[t],"rd%d",t); vs_region(&URCU_TLS(urcu_qsbr_reader).ctr,sizeof(unsigned long),tlsname[t]);
+	sprintf(wname[t],"wt%d",t); vs_region(&URCU_TLS(urcu_qsbr_reader).waiting,sizeof(int),wname[t]);
+	vs_quiet_begin(); urcu_qsbr_register_thread(); vs_quiet_end();
+	vs_call("begin",0);   /* start of the first implicit section */
+	for(char *p=prog[t]; *p; p++){
+		switch(*p){
+		case 'Q': vs_call("qs",0); urcu_qsbr_quiescent_state(); vs_ret("qs",0); break;
+		case 'F': vs_call("offline",0); urcu_qsbr_thread_offline(); vs_ret("offline",0); online=0; break;
+		case 'N': vs_call("online",0); urcu_qsbr_thread_online(); vs_ret("online",0); online=1; break;
+		case 'r': for(int i=0;i<ng_total;i++) vpost[i]=CMM_LOAD_SHARED(post[i]); for(int i=0;i<ng_total;i++) vpre[i]=CMM_LOAD_SHARED(pre[i]);
+			if(online) for(int i=0;i<ng_total;i++) if(vpost[i]==1 && vpre[i]==0) printf("LITMUS reader %d saw post_%d=1 then pre_%d=0 inside one implicit section\n",t,i,i);
+			break;
+		case 'q': for(int i=0;i<ng_total;i++) vpre[i]=CMM_LOAD_SHARED(pre[i]); for(int i=0;i<ng_total;i++) vpost[i]=CMM_LOAD_SHARED(post[i]);
+			if(online) for(int i=0;i<ng_total;i++) if(vpost[i]==1 && vpre[i]==0) printf("LITMUS reader %d saw pre_%d=0 then post_%d=1 inside one implicit section\n",t,i,i);
+			break;
+		case 'S': CMM_STORE_SHARED(pre[g],1); vs_call("sync",g); urcu_qsbr_synchronize_rcu(); vs_ret("sync",g); CMM_STORE_SHARED(post[g],1); g++; break;
+		}
+	}
+	vs_call("offline",0); urcu_qsbr_thread_offline(); vs_ret("offline",0);
+	if(updater) uatomic_dec(&updaters_left);
+	while(CMM_LOAD_SHARED(updaters_left)) caa_cpu_relax();
+	urcu_qsbr_unregister_thread();
+}
+int main(int argc,char**argv){
+	static char obuf[1<<22]; setvbuf(stdout,obuf,_IOFBF,sizeof obuf);
+	if(argc<3) return 9;
+	for(char *s=strtok(argv[1],"/"); s && nprog<MAXTH; s=strtok(0,"/")){ gbase[nprog]=ng_total; for(char *c=s;*c;c++) if(*c=='S') ng_total++; if(strchr(s,'S')) updaters_left++; prog[nprog++]=s; }
 	vs_region(&urcu_qsbr_gp.ctr,8,"gp.ctr"); vs_region(&urcu_qsbr_gp.futex,4,"gp.futex"); vs_region(&rcu_gp_lock,sizeof rcu_gp_lock,"gp_lock"); vs_region(&rcu_registry_lock,sizeof rcu_registry_lock,"reg_lock");
-	vs_region(&gp_waiters,sizeof gp_waiters,"waiters"); vs_region(&X,8,"X"); vs_region(&Y,8,"Y");
-	vs_spawn(reader); vs_spawn(reader); vs_spawn(updater); vs_spawn(updater);
-	vs_run(argc>1?argv[1]:""); fflush(stdout); _exit(0); }
+	vs_region(&gp_waiters,sizeof gp_waiters,"waiters"); vs_region(pre,sizeof pre,"pre"); vs_region(post,sizeof post,"post"); vs_region(&updaters_left,8,"uleft");
+	for(int i=0;i<nprog;i++) vs_spawn(body);
+	vs_run(argv[2]);
+	fflush(stdout); _exit(0); }
